@@ -60,8 +60,7 @@ def impl_block(src, name):
     raise Missing("impl %s (unbalanced)" % name)
 
 
-def gather():
-    c = {}
+def g_checksum(c):
     ck = strip_tests(read("src/checksum.rs"))
     rc = impl_block(ck, "RollingChecksum")
     frc = impl_block(ck, "FastRollingChecksum")
@@ -70,12 +69,15 @@ def gather():
     c["FRC_INTERVAL"] = lit(find(frc, r"const\s+NORMALIZE_INTERVAL\s*:\s*u32\s*=\s*([^;]+);",
                                  "FastRollingChecksum::NORMALIZE_INTERVAL"))
 
-    def bs_bounds(src, what):
-        m = re.search(r"\((\d[\d_]*)\s*\.\.=\s*(\d[\d_]*)\)\s*\.contains\(&\s*(?:size|block_size)\)", src)
-        if not m:
-            raise Missing(what)
-        return lit(m.group(1)), lit(m.group(2))
 
+def bs_bounds(src, what):
+    m = re.search(r"\((\d[\d_]*)\s*\.\.=\s*(\d[\d_]*)\)\s*\.contains\(&\s*(?:size|block_size)\)", src)
+    if not m:
+        raise Missing(what)
+    return lit(m.group(1)), lit(m.group(2))
+
+
+def g_blocksize(c):
     sy = strip_tests(read("src/sync.rs"))
     asy = strip_tests(read("src/async_sync.rs"))
     sg = strip_tests(read("src/signature.rs"))
@@ -87,6 +89,8 @@ def gather():
     c["BS_MIN_TABLE"], c["BS_MAX_TABLE"] = lo3, hi3
     c["SIG_PAR_THRESHOLD"] = lit(find(sg, r"if\s+data\.len\(\)\s*>\s*([0-9_ \*]+)\{", "parallel signature threshold"))
 
+
+def g_protocol(c):
     pr = strip_tests(read("src/protocol.rs"))
     magic = find(pr, r'pub const PROTOCOL_MAGIC\s*:\s*\[u8;\s*4\]\s*=\s*\*b"([^"]{4})";', "PROTOCOL_MAGIC")
     for i, ch in enumerate(magic.encode()):
@@ -95,11 +99,15 @@ def gather():
     c["MAX_PAYLOAD_SIZE"] = lit(find(pr, r"pub const MAX_PAYLOAD_SIZE\s*:\s*u32\s*=\s*([^;]+);", "MAX_PAYLOAD_SIZE"))
     c["HEADER_SIZE"] = lit(find(pr, r"pub const SIZE\s*:\s*usize\s*=\s*([^;]+);", "FrameHeader::SIZE"))
     enum = find(pr, r"pub enum MessageType\s*\{(.*?)\n\}", "enum MessageType")
+    n = 0
     for name, val in re.findall(r"(\w+)\s*=\s*(0x[0-9a-fA-F]+|\d+)\s*,", enum):
         c["MT_" + name.upper()] = lit(val)
-    if not any(k.startswith("MT_") for k in c):
+        n += 1
+    if n == 0:
         raise Missing("MessageType discriminants")
 
+
+def g_wire(c):
     wr = strip_tests(read("src/bin/copia/wire.rs"))
     wm = find(wr, r'pub const MAGIC\s*:\s*&\[u8(?:;\s*\d+)?\]\s*=\s*b"([^"]+)";', "wire::MAGIC")
     c["WIRE_MAGIC_LEN"] = len(wm)
@@ -108,14 +116,21 @@ def gather():
     c["WIRE_VERSION"] = lit(find(wr, r"pub const VERSION\s*:\s*u\d+\s*=\s*([^;]+);", "wire::VERSION"))
     c["WIRE_MAX_FRAME"] = lit(find(wr, r"(?:pub )?const MAX_FRAME\s*:\s*\w+\s*=\s*([^;]+);", "wire::MAX_FRAME"))
 
+
+def g_archive(c):
     ar = strip_tests(read("src/bin/copia/archive.rs"))
     c["ARCHIVE_FORMAT_VERSION"] = lit(find(ar, r"const FORMAT_VERSION\s*:\s*u\d+\s*=\s*([^;]+);", "archive::FORMAT_VERSION"))
 
+
+def g_clibs(c):
     # C20: the CLI's own validate_block_size (applied to block sizes read from signature/delta files)
     mn = strip_tests(read("src/bin/copia/main.rs"))
     lo4, hi4 = bs_bounds(find(mn, r"fn validate_block_size\(size: usize\).*?\n\}", "cli validate_block_size", 0), "cli validate_block_size bounds")
     c["BS_MIN_CLI"], c["BS_MAX_CLI"] = lo4, hi4
-    # C19: glob metacharacters (plan.rs) and the remote listing format (meta.rs)
+
+
+def g_glob(c):
+    # C19: glob metacharacters (plan.rs)
     pl = strip_tests(read("src/bin/copia/plan.rs"))
     gmf = find(pl, r"pub fn glob_match\(.*?\n\}", "plan::glob_match", 0)
     stars = set(re.findall(r"p\[pi\]\s*==\s*'(.)'\s*\{", gmf))
@@ -126,19 +141,62 @@ def gather():
     c["PATH_SEP"] = ord(find(pl, r"pat\.trim_end_matches\('(.)'\)", "is_excluded: trim_end_matches"))
     if find(pl, r"pat\.contains\('(.)'\)", "is_excluded: contains") != chr(c["PATH_SEP"]):
         raise Missing("is_excluded: contains() and trim_end_matches() use different characters")
+
+
+def g_listing(c):
+    # C19: the remote listing format (meta.rs)
     mt = strip_tests(read("src/bin/copia/meta.rs"))
     find(mt, r"""find \. -type f -printf '%s\\\\t%T@\\\\t%p\\\\0'""", "meta.rs: find -printf '%s\\t%T@\\t%p\\0' listing format", 0)
     pm = find(mt, r"pub fn parse_remote_meta_output\(.*?\n\}", "meta::parse_remote_meta_output", 0)
     c["LISTING_REC_SEP"] = lit(find(pm, r"stdout\.split\(\|&b\|\s*b\s*==\s*(\d+)\)", "parse_remote_meta_output: record separator"))
-    nf, fs = re.search(r"\.splitn\((\d+),\s*'(\\?.)'\)", pm).groups() if re.search(r"\.splitn\((\d+),\s*'(\\?.)'\)", pm) else (None, None)
+    m = re.search(r"let mut parts = s\.splitn\((\d+),\s*'(\\?.)'\)", pm)
+    nf, fs = m.groups() if m else (None, None)
     if nf != "3" or fs not in ("\\t",):
-        raise Missing("parse_remote_meta_output: splitn(3, '\\t')")
+        raise Missing("parse_remote_meta_output: `let mut parts = s.splitn(3, '\\t')` applied to the record itself")
     c["LISTING_FIELD_SEP"] = 9
     c["LISTING_FRAC_SEP"] = ord(find(pm, r"mtime\s*\.split\('(.)'\)", "parse_remote_meta_output: fraction separator"))
     pref = find(pm, r'path\.strip_prefix\("([^"]*)"\)', "parse_remote_meta_output: strip_prefix")
     if pref != "./":
         raise Missing("parse_remote_meta_output: strip_prefix(\"./\")")
-    return c
+
+
+# group -> (function, prefixes of the constants it defines).  A group that cannot be translated keeps the values of the
+# previous Constants.v (so the development still builds) and is reported in the status file; a check fails closed only
+# when the model files its property depends on mention a constant of a failed group (vlib.translator_problems).
+GROUPS = [
+    ("checksum", g_checksum, ("RC_MOD", "FRC_MOD", "FRC_INTERVAL")),
+    ("blocksize", g_blocksize, ("BS_MIN_SYNC", "BS_MAX_SYNC", "BS_MIN_ASYNC", "BS_MAX_ASYNC", "BS_MIN_TABLE", "BS_MAX_TABLE", "SIG_PAR_THRESHOLD")),
+    ("protocol", g_protocol, ("PROTO_", "MAX_PAYLOAD_SIZE", "HEADER_SIZE", "MT_")),
+    ("wire", g_wire, ("WIRE_",)),
+    ("archive", g_archive, ("ARCHIVE_FORMAT_VERSION",)),
+    ("clibs", g_clibs, ("BS_MIN_CLI", "BS_MAX_CLI")),
+    ("glob", g_glob, ("GLOB_", "PATH_SEP")),
+    ("listing", g_listing, ("LISTING_",)),
+]
+
+
+def old_values():
+    out = os.path.abspath(OUT)
+    if not os.path.exists(out):
+        return {}
+    return {k: int(v) for k, v in re.findall(r"Definition (\w+) : Z := (-?\d+)\.", open(out).read())}
+
+
+def gather():
+    """returns (constants, failures[(group, why, [constant names kept from the previous file])])"""
+    c, failures, old = {}, [], old_values()
+    for name, fn, prefixes in GROUPS:
+        part = {}
+        try:
+            fn(part)
+            c.update(part)
+        except Missing as e:
+            kept = {k: v for k, v in old.items() if any(k.startswith(p) for p in prefixes)}
+            if not kept:
+                raise
+            c.update(kept)
+            failures.append((name, str(e), sorted(kept)))
+    return c, failures
 
 
 def render(c):
@@ -150,9 +208,13 @@ def render(c):
     return "\n".join(lines)
 
 
+STATUS = os.path.join(os.path.dirname(os.path.abspath(__file__)), "..", ".build", "translator_status.json")
+
+
 def main():
+    import json
     try:
-        c = gather()
+        c, failures = gather()
     except Missing as e:
         print("gen_constants: cannot find/evaluate: %s" % e, file=sys.stderr)
         return 2
@@ -163,9 +225,14 @@ def main():
     if old != text:
         with open(out, "w") as f:
             f.write(text)
+    os.makedirs(os.path.dirname(os.path.abspath(STATUS)), exist_ok=True)
+    with open(os.path.abspath(STATUS), "w") as f:
+        json.dump({"repo": REPO, "failed": [dict(group=g, why=w, constants=k) for g, w, k in failures]}, f, indent=1)
+    for g, w, k in failures:
+        print("gen_constants: group %s not translated (%s); previous values kept for %s" % (g, w, ", ".join(k)), file=sys.stderr)
     if "--print" in sys.argv:
         print(text)
-    return 0
+    return 3 if failures else 0
 
 
 if __name__ == "__main__":
